@@ -67,3 +67,9 @@ def file_content(f):
 
 def file_pos(f):
     return f.tell()
+
+
+def fits_bytes(n, w, signed=False):
+    if signed:
+        return -(256 ** w) // 2 <= n < (256 ** w) // 2 if w > 0 else n == 0
+    return 0 <= n < 256 ** w
